@@ -125,7 +125,7 @@ def session_consts(**over):
     c = dict(FullRollback=True, PatSet=ALL_PATTERNS, PskMode="none", PubLens=[32, 65], InitPads=[True, False],
              Profiles=["small"], BufModes=["big"], Variants=["tr", "sl"], FixedEs=[False], TrafficMode="mixed",
              FaultBudget=0, FaultKinds=["wbuf", "wmax", "turn", "ralt", "rtrunc", "rext", "rstale", "routbuf"],
-             LatePsk=False, OverwritePsk=False, TamperBudget=0, Mismatches=["none"], ExtraPsks=[False], ExtraRs=[False], OddNames=False, Hfs=False, EarlySplit=False, Emit=True)
+             LatePsk=False, OverwritePsk=False, TamperBudget=0, Mismatches=["none"], ExtraPsks=[False], ExtraRs=[False], ExtraRsOther=False, OddNames=False, Hfs=False, EarlySplit=False, Emit=True)
     c.update(over)
     return c
 
